@@ -142,18 +142,24 @@ def showExc (st : DSt) : Exc → String
   | .jsonDecode => "JSONDecodeError"
   | .validation => "ValidationError"
 
-def showHook (raw : Text) : HookCall Nat Nat → String
+def showHookG (echoOk : Text → Bool) : HookCall Nat Nat → String
   | .pre _ (.ok _) => "p:ok"
   | .pre _ (.raise _) => "p:raise"
   | .misfold rep r =>
     let sid := match rep.struct with | some s => toString s | none => "none"
-    "m:" ++ "/".intercalate [showBool rep.valid, sid, showBool rep.err.isSome, showBool (rep.raw == raw),
+    "m:" ++ "/".intercalate [showBool rep.valid, sid, showBool rep.err.isSome, showBool (echoOk rep.raw),
       showRat rep.confidence,
       "+".intercalate (rep.attempts.map fun a => (match a.strategy with
         | .strict => "s" | .extraction => "e" | .lenient => "l" | .repair => "r") ++ showBool a.success)]
     ++ (match r with | .ok _ => ":ok" | .raise _ => ":raise")
 
+def showHook (raw : Text) : HookCall Nat Nat → String := showHookG (· == raw)
+
 def showHooks (raw : Text) (hs : List (HookCall Nat Nat)) : String := "hooks=" ++ showList (hs.map (showHook raw))
+
+/-- the callbacks a healing run invoked: a misfold report must echo one of the generated texts -/
+def showHealHooks (texts : List Text) (hs : List (HookCall Nat Nat)) : String :=
+  "hooks=" ++ showList (hs.map (showHookG (fun t => texts.contains t)))
 
 def hookTags (hs : List (HookCall Nat Nat)) : List String :=
   hs.map fun h => match h with
@@ -394,13 +400,14 @@ def step (st : DSt) (toks : List String) : DSt × String :=
       (st.withStats out.stats, joinSp ["raise:" ++ showExc st e, showHooks rawT out.hooks, showCalls st st.table out.trace]
         ++ " ## " ++ joinSp (hookTags out.hooks))
   | ["heal", n, decay, outs] =>
-    if st.cochaps.any (fun e => e.1 == (st.cur, st.spec)) || st.misfolds.any (fun e => e.1 == st.cur) then
-      (st, "skipped-callbacks")     -- the healing loop is modelled over an instance without callbacks
-    else
+    -- `ChaperoneLoop(generator, chaperone=<addressed instance>, schema=<current class>, …).heal(prompt)`; the instance's
+    -- callbacks for that class take part (co-chaperone on every generated text, `on_misfold` on every misfolded attempt)
+    let st := st.ensure
     let texts := (outs.splitOn ",").map decodeCps
     let gen : Nat → Text := fun k => (texts[k]?).getD (texts.getLast?.getD [])
-    match heal (mkEnv st st.table) st.cfg st.stats (ratOf decay) (natD n) gen with
-    | ⟨tr, .ok (stats', h)⟩ =>
+    let out := healH (mkEnv st st.table) (mkHooks st) st.cfg st.stats (ratOf decay) (natD n) gen
+    match out.res with
+    | .ok h =>
       let oc := match h.outcome with | .validFirstTry => "v" | .healed => "h" | .degraded => "d"
       let atts := h.attempts.map fun a => s!"{a.number}{showBool a.success}:{showRat a.confidence}"
       let fo := match h.folded with
@@ -409,10 +416,13 @@ def step (st : DSt) (toks : List String) : DSt × String :=
           let sid := match r.struct with | some s => toString s | none => "none"
           joinSp [showBool r.valid, sid, showOptStrat r.strategyUsed, showRat r.confidence,
             showList (r.coercions.map showNote)]
-      (st.withStats stats',
-        joinSp [oc, showRat h.finalConfidence, showBool h.tagged, showList atts, "folded:", fo, showCalls st st.table tr]
-        ++ " ## " ++ joinSp (("heal:" ++ oc) :: convTags tr))
-    | ⟨tr, .raise _⟩ => (st, joinSp ["raise", showCalls st st.table tr])
+      (st.withStats out.stats,
+        joinSp [oc, showRat h.finalConfidence, showBool h.tagged, showList atts, "folded:", fo,
+          showHealHooks texts out.hooks, showCalls st st.table out.trace]
+        ++ " ## " ++ joinSp (("heal:" ++ oc) :: convTags out.trace ++ hookTags out.hooks))
+    | .raise e =>
+      (st.withStats out.stats, joinSp ["raise:" ++ showExc st e, showHealHooks texts out.hooks, showCalls st st.table out.trace]
+        ++ " ## " ++ joinSp (hookTags out.hooks))
   | ["stats"] => (st, showStats st.stats)
   | ["resetstats"] => (st.withStats Stats.zero, "ok")
   | _ => (st, "bad-op")
